@@ -1,6 +1,6 @@
 """C06 - one subset per group per dataset. Collection.tla (R) model-checked (E0); all histories to a depth
 and random deep walks replayed into a real DataCollection (E1)."""
-from harness import tlc, core
+from harness import tlc, core, hubtrace, colltrace
 from harness.tlaval import to_json
 from harness.adapters import collection as A
 
@@ -57,13 +57,75 @@ def run(ctx):
                                  seed=ctx.seed + 1, timeout=3000)
         ctx.cov['tlc_runs'].append({'label': 'E1 simulation SIM_Collection.cfg', 'behaviours': len(behs), 'depth': depth})
         replay_items(ctx, items_from_sim(behs), 'simulate SIM_Collection.cfg')
+        _e2(ctx, wd, quick)
     ctx.cov['rule'] = ('every transition of the depth-bounded generation graph replayed (BFS-tree leaves + non-tree edges) plus '
                        'random walks; non-trivial = distinct histories of >= 3 steps ending with at least one dataset and one group')
     ctx.assume('membership compared only when no hub delay block is open; nothing is required of datasets outside the collection')
     ctx.assume('selections are row-index selections (ElementSubsetState) so that one group state has a mask on every dataset')
 
 
+REPO_TESTS_QUICK = ['glue/core/tests/test_subset_group.py', 'glue/core/tests/test_data_collection.py', 'glue/core/tests/test_command.py',
+                    'glue/core/tests/test_state.py', 'glue/core/tests/test_application_base.py', 'glue/core/tests/test_edit_subset_mode.py']
+REPO_TESTS_THOROUGH = REPO_TESTS_QUICK + ['glue/core/tests/test_data.py', 'glue/core/tests/test_link_manager.py', 'glue/core/tests/test_subset.py',
+                                          'glue/core/tests/test_session_back_compat.py', 'glue/core/tests/test_data_combo_helper.py',
+                                          'glue/viewers', 'glue/dialogs', 'glue/plugins', 'glue/core/data_factories/tests']
+
+
+def _e2(ctx, wd, quick):
+    """code -> spec: DataCollections of the repository's own tests, recorded by harness/glue_tracer.py, validated by TLC
+    against Trace_Collection.tla (membership required after every traced call)"""
+    repo = core.use_repo()
+    _, traces, tail = hubtrace.record_repo_tests(wd.file('repotests.json'), REPO_TESTS_QUICK if quick else REPO_TESTS_THOROUGH, repo,
+                                                 want_collections=True)
+    if len(traces) < 50:
+        raise core.MachineryFailure('tracer recorded only %d collection traces from the repository tests:\n%s' % (len(traces), tail))
+    accepted, rejected, states, kept = colltrace.validate(wd, traces)
+    ctx.add_traces(kept, accepted)
+    ops = {}
+    for t in traces:
+        for e in t['events']:
+            ops[e['ev']] = ops.get(e['ev'], 0) + 1
+    ctx.cov['tlc_runs'].append({'label': 'E2 Trace_Collection.tla', 'traces': kept, 'events': sum(ops.values()), 'events_by_kind': ops,
+                                'distinct_states': states, 'rejected': len(rejected)})
+    ctx.cov['states'] += states
+    for need in ('Append', 'Remove', 'NewGroup', 'RemoveGroup', 'Observe'):
+        if not ops.get(need):
+            raise core.MachineryFailure('vacuous trace validation: no %s event recorded' % need)
+    for t, eix in rejected:
+        ev = t['events']
+        e = ev[eix - 1] if eix <= len(ev) else {'ev': 'end'}
+        ctx.report(core.Divergence({'trace': t, 'first_unmatched': eix}, eix, 'trace event', 'the membership C06 requires after %s' % e['ev'],
+                                   {k: e.get(k) for k in ('coll', 'groups', 'subs', 'members', 'strays', 'delay')}, kind='trace:' + e['ev'],
+                                   note='recorded DataCollection of the repository tests rejected by Trace_Collection.tla; preceding events: %s'
+                                        % [x['ev'] + ':' + str(x.get('d', x.get('g', ''))) for x in ev[max(0, eix - 6):eix]]))
+    t = traces[len(traces) // 3]
+    ctx.sample({'source': 'E2 collection trace (repository tests)', 'events': [x['ev'] + ':' + str(x.get('d', x.get('g', ''))) for x in t['events'][:20]]})
+    bad, kinds = [], {}
+    for t in traces:
+        for kind, ev in colltrace.corruptions(t):
+            if kinds.get(kind, 0) < 5:
+                kinds[kind] = kinds.get(kind, 0) + 1
+                bad.append({'events': ev, 'kind': kind})
+    need = ['missing_subset', 'duplicate_subset', 'group_misses_member', 'dead_group_subset', 'stray', 'not_appended', 'group_reused']
+    missing = [k for k in need if k not in kinds]
+    if missing:
+        raise core.MachineryFailure('binding self-test: no recorded trace exhibits the situation needed for %s' % missing)
+    a2, rej2, st2, kept2 = colltrace.validate(wd, bad, batch=1000)
+    if a2 != 0 or len(rej2) != len(bad):
+        raise core.MachineryFailure('binding self-test: %d of %d impossible collection traces were ACCEPTED by Trace_Collection.tla' % (a2, len(bad)))
+    ctx.cov['tlc_runs'].append({'label': 'E2 binding self-test', 'corrupted_traces': len(bad), 'rejected': len(rej2), 'kinds': kinds})
+
+
 def replay(div):
+    if 'trace' in div.behaviour:
+        with tlc.Workdir() as wd:
+            accepted, rejected, states, kept = colltrace.validate(wd, [div.behaviour['trace']])
+        if not rejected:
+            print('replay: trace accepted')
+            return 0
+        print('VIOLATION property=C06 replay=(given)')
+        print('  first unmatched event %d' % rejected[0][1])
+        return 1
     res = A.replay_one(div.behaviour)
     if res is None:
         print('replay: behaviour conforms')
